@@ -55,6 +55,34 @@ def diag_errors(stdout, fname):
     return here, elsewhere
 
 
+def hook_structs_compile(ck):
+    """The generated crate needs push built WITH the hook structs (AltState, MiniState, SplitState: the macro
+    applied to structs other than PushState). If the macro no longer accepts one of them - they use only
+    documented attribute forms - that is the property's violation, reported with rustc's message."""
+    p = cargo(["build", "--offline", "--lib", "--message-format=json"])
+    if p.returncode == 0:
+        return True
+    msgs = []
+    for ln in p.stdout.splitlines():
+        if ln.startswith("{"):
+            try:
+                m = json.loads(ln)
+            except ValueError:
+                continue
+            msg = m.get("message") or {}
+            if m.get("reason") == "compiler-message" and msg.get("level") == "error":
+                spans = [sp.get("file_name", "") for sp in msg.get("spans", [])]
+                msgs.append((msg.get("message", "")[:300], spans))
+    in_hook = [m for m, spans in msgs if any("verif_alt_state.rs" in f for f in spans)]
+    if in_hook:
+        ck.violation("compile:macro-rejects-a-supported-struct",
+                     "#[push_state(builder)] no longer compiles on a struct that uses only documented attribute forms "
+                     "(push::push_vm::verif_alt_state: AltState / MiniState / SplitState): " + " | ".join(in_hook[:3]),
+                     {"kind": "hook-structs", "errors": in_hook[:6]})
+        return False
+    raise vlib.ToolError("harness-gen library does not build:\n" + p.stderr[-2500:])
+
+
 def run_well_typed(ck, cases, tag="wt"):
     src = buildergen.gen_wt(cases)
     with open(os.path.join(GEN, "src", "bin", "wt.rs"), "w") as fh:
@@ -158,6 +186,11 @@ def pick(cases, n):
 
 def run(ck):
     q = ck.tier == "quick"
+    if not hook_structs_compile(ck):
+        ck.cov["evaluations"] = 1
+        ck.cov["distinct_nontrivial"] = 1
+        ck.cov["explanation"] = "the macro rejected one of the extra structs (see violation); nothing else was run"
+        return
     cfg = "builder/MC_Builder_quick.cfg" if q else "builder/MC_Builder_thorough.cfg"
     cpath = os.path.join(ck.work, "builder-cases.ndjson")
     res = ck.tlc_model("builder/MC_Builder", cfg, workers=6 if q else 12, timeout=3400, cases_path=cpath,
@@ -234,7 +267,9 @@ def run(ck):
 
 
 def replay(ck, obj):
-    if obj["kind"] == "wt":
+    if obj["kind"] == "hook-structs":
+        hook_structs_compile(ck)
+    elif obj["kind"] == "wt":
         c = dict(obj["case"])
         c["id"] = 0
         run_well_typed(ck, [c], tag="one")
